@@ -113,6 +113,9 @@ pub struct PoolCfg {
     pub continue_after_preemption: bool,
     pub timeout_ms: Option<u64>,
     pub max_reqs: u32,
+    /// stub connections answer `is_open() == true` while busy
+    #[serde(default)]
+    pub open_while_busy: bool,
 }
 
 #[derive(Clone, Debug, Serialize, Deserialize)]
@@ -218,6 +221,7 @@ fn weights_for(profile: &str, r: &mut Rng, faulty: bool) -> Weights {
             w.respond_upgrade = 3;
             w.cancel = 8;
             w.conn_close = 2;
+            w.advance = 4;
         }
         "C03" => {
             w.h2_pct = 60;
@@ -256,7 +260,8 @@ fn weights_for(profile: &str, r: &mut Rng, faulty: bool) -> Weights {
             w.h2_pct = 0;
             w.issue = 20;
             w.conn_close = 4;
-            w.cancel = 2;
+            w.cancel = 9;
+            w.poll_woken = 18;
             w.dial_fail = 1;
             w.hs_fail = 1;
         }
@@ -339,6 +344,7 @@ fn gen_cfg(profile: &str, r: &mut Rng) -> PoolCfg {
         continue_after_preemption: r.bool(),
         timeout_ms,
         max_reqs,
+        open_while_busy: matches!(profile, "C02" | "C05" | "C17") && r.chance(1, 3),
     }
 }
 
@@ -1813,6 +1819,7 @@ impl PoolSim {
             {
                 let mut ww = w.lock();
                 ww.idle_timeout_ms = case.cfg.idle_timeout_ms;
+                ww.open_while_busy = case.cfg.open_while_busy;
                 ww.trace = std::env::var("VERIF_TRACE").is_ok();
                 ww.t0 = Some(tokio::time::Instant::now());
                 for i in &case.cfg.alpn_h2 {
@@ -2013,6 +2020,11 @@ impl Scenario for PoolSim {
             v.push(c);
         }
         // simplify configuration
+        if case.cfg.open_while_busy {
+            let mut c = case.clone();
+            c.cfg.open_while_busy = false;
+            v.push(c);
+        }
         if case.cfg.idle_timeout_ms.is_some() {
             let mut c = case.clone();
             c.cfg.idle_timeout_ms = None;
